@@ -22,12 +22,65 @@ namespace occa {
           return false;
         }
 
+        if (!sharedAndExclusiveAreInsideKernels(root)) {
+          return false;
+        }
+
         // Make sure no kernels fail the checks needed
         return kernelSmnts
             .filter([&](statement_t *kernelSmnt) {
                 return !kernelIsValid((functionDeclStatement&) *kernelSmnt);
               })
             .isEmpty();
+      }
+
+      bool sharedAndExclusiveAreInsideKernels(blockStatement &root) {
+        // [@shared] and [@exclusive] variables only exist between the [@outer]
+        // and [@inner] loops of a kernel: they cannot be globals, function
+        // arguments, or local variables of a regular function
+        // (The declarations inside [@kernel] functions are checked per kernel)
+        bool isValid = true;
+
+        auto checkVariable = [&](variable_t &var) {
+          for (const std::string attrName : {"shared", "exclusive"}) {
+            if (var.hasAttribute(attrName)) {
+              var.printError("Must define [@" + attrName + "] variables between"
+                             " [@outer] and [@inner] loops");
+              isValid = false;
+            }
+          }
+        };
+
+        statementArray::from(root)
+            .nestedForEachDeclaration([&](variableDeclaration &decl, declarationStatement &declSmnt) {
+                statement_t *pathSmnt = &declSmnt;
+                while (pathSmnt) {
+                  if ((pathSmnt->type() & statementType::functionDecl)
+                      && pathSmnt->hasAttribute("kernel")) {
+                    return;
+                  }
+                  pathSmnt = pathSmnt->up;
+                }
+                checkVariable(decl.variable());
+              });
+
+        statementArray::from(root)
+            .flatFilterByStatementType(statementType::function
+                                       | statementType::functionDecl)
+            .forEach([&](statement_t *smnt) {
+                function_t &func = (
+                  (smnt->type() & statementType::functionDecl)
+                  ? ((functionDeclStatement*) smnt)->function()
+                  : ((functionStatement*) smnt)->function()
+                );
+                for (variable_t *arg : func.args) {
+                  if (arg) {
+                    checkVariable(*arg);
+                  }
+                }
+              });
+
+        return isValid;
       }
 
       bool kernelIsValid(functionDeclStatement &kernelSmnt) {
